@@ -42,6 +42,16 @@ Verdict(t, e) ==
               THEN <<"Completeness", IF ~Connected(G1, n) /\ e.dim >= 5
                                       THEN "disconnected-first-graph:solution-space-dim>=5" ELSE e.via>>
          ELSE <<"ok", "">>
+    [] e.fn = "lc_decide_cert" ->
+         \* a pair that IS equivalent by certificate (e.cert: a local-complementation sequence, replayed here, leading from
+         \* base to g2): the answer must be yes - completeness on graphs too large to enumerate the orbit for every pair
+         LET G2 == FromEdges(n, e.g2) IN
+         IF (\E k \in DOMAIN e.cert : e.cert[k] \notin 1..n) \/ LCSeq(G1, n, e.cert, 1) # G2 THEN <<"HarnessCertInvalid", e.via>>
+         ELSE IF e.out.err # "" THEN <<"Raised", e.via>>
+         ELSE IF ~e.out.yes
+              THEN <<"Completeness", IF ~Connected(G1, n) /\ e.dim >= 5
+                                      THEN "disconnected-first-graph:solution-space-dim>=5" ELSE e.via>>
+         ELSE <<"ok", "">>
     [] e.fn = "lc_gates" ->
          \* out.gates transforms |base> into |g2> exactly (lc_check / converter)
          LET G2 == FromEdges(n, e.g2) IN
